@@ -13,7 +13,7 @@ from .c16 import small_mirp
 
 ID = "C17"
 RULE = ("instances: the G1 example at horizons 15.5 / 20 (thorough: 25, 31), seeded small dyadic MIRPs, seeded random-generator MIRPs; each built "
-        "in separate interpreter processes under PYTHONHASHSEED in {0, 1, random} and after 0 / 5 / 50 prior draws from numpy's global generator, "
+        "in separate interpreter processes under PYTHONHASHSEED in {0, 1, 4242, 977} and after 0 / 5 / 50 prior draws from numpy's global generator, "
         "and twice in one process; fingerprints = hashes of variable order, constraint / objective / QUBO data (both modes), stored feasible "
         "solution, decoded routes, graph after the heuristic, exported Ising coefficient lines; random MIRP: instance hash for equal explicit seeds; "
         "non-trivial = instance on which at least the path-based pool is sampled (non-empty pool); distinct = distinct instance")
@@ -23,7 +23,8 @@ ASSUMPTIONS = [
 ]
 PARTIAL = ["runtime half (hash randomisation, numpy generator, scipy.stats, separate interpreter processes): subprocess differential test, labelled as test; the Lean theorems certify the dataflow (sorted de-duplicated grid, re-seeding, explicit seeds)"]
 BUDGET_S = {"quick": 200, "thorough": 1800}
-CONFIGS = [("0", 0), ("1", 5), ("random", 50), ("1", 0), ("random", 5), ("0", 50)]
+# (numeric hash seeds only, so that a reported difference reproduces from its replay; 4242 / 977 stand for "some other seed")
+CONFIGS = [("0", 0), ("1", 5), ("4242", 50), ("1", 0), ("977", 5), ("0", 50)]
 
 
 def gen(rng, tier):
@@ -59,8 +60,11 @@ def run_worker(job, hashseed):
     env["VERIF_ROOT"] = str(core.VERIF)
     env["VERIF_REPO"] = str(core.REPO)
     env["PYTHONPATH"] = str(core.REPO / "src")
-    p = subprocess.run([sys.executable, "-m", "harness.vh.fp_worker", json.dumps(job)], cwd=str(core.VERIF), env=env,
-                       stdout=subprocess.PIPE, stderr=subprocess.PIPE, text=True, timeout=900)
+    try:
+        p = subprocess.run([sys.executable, "-m", "harness.vh.fp_worker", json.dumps(job)], cwd=str(core.VERIF), env=env,
+                           stdout=subprocess.PIPE, stderr=subprocess.PIPE, text=True, timeout=1500)
+    except subprocess.TimeoutExpired:
+        raise core.Infra("fingerprint worker did not finish within 1500 s (machine overloaded?)")
     for ln in p.stdout.splitlines():
         if ln.startswith("FP "):
             return json.loads(ln[3:])
